@@ -17,3 +17,9 @@ REG.fn(F, "wrong_sum", prop="T", ensures=["result == lsum_t(xs, len(xs))"], lemm
 # contract-less straight-line helpers are inlined: the first is proved, the second (helper skips gaps of 1) must fail
 REG.fn(F, "smaller_inlined", prop="T", ensures=["result <= x", "result <= y"])
 REG.fn(F, "smaller_inlined_wrong", prop="T", ensures=["result <= x", "result <= y"])
+# interned string literals (str_literals=True): equal literals are equal, different literals differ - the first is proved,
+# the second (a misspelt literal in the code) must be refuted with a counter-model
+REG.fn(F, "pick_name", prop="T", types={"req": "opt[opaque]"}, ret="opaque", str_literals=True,
+       ensures=["implies(req == 'python', result == 'python')", "implies(req != 'python', result == 'rust')", "result != 'auto'"])
+REG.fn(F, "pick_name_wrong", prop="T", types={"req": "opt[opaque]"}, ret="opaque", str_literals=True,
+       ensures=["implies(req == 'python', result == 'python')"])
